@@ -63,7 +63,7 @@ func init() {
 func runC13(c *Ctx) {
 	const pkg = "task"
 	const mgr = pkg + ".BackgroundTaskManager"
-	live := c.liveFuncs()
+	_ = c.liveFuncs()
 	inv := c.mustFnClause(pkg, "(*BackgroundTaskManager).InvokeBackgroundTask")
 
 	// locate the attempt: the function (literal) of package task that starts the body goroutine
@@ -154,6 +154,19 @@ func runC13(c *Ctx) {
 		})
 		key := c.fnKey(a.f) + ":sem"
 		okp, path := mustPass(a.f, a.g, newCuts().addCalls(acq))
+		// the acquisition must not be able to fail silently: non-cancellable context, or its error checked before the start
+		for _, q := range acq {
+			ctxArg := stripConv(q.Common().Args[1])
+			nonCancel := false
+			if cc, ok := ctxArg.(*ssa.Call); ok && (calleeID(cc) == "context.Background" || calleeID(cc) == "context.TODO") {
+				nonCancel = true
+			}
+			checked := false
+			if se := successEdges(a.f, q); len(se) > 0 {
+				checked, _ = mustPass(a.f, a.g, newCuts().addEdges(se))
+			}
+			c.verdict(c.fnKey(a.f)+":sem-acquired", q.Pos(), nonCancel || checked, "Acquire cannot fail unnoticed (non-cancellable context or error checked)", "Acquire is given a cancellable context and its error is ignored: the body runs without holding a slot and the deferred Release frees a slot it never took")
+		}
 		if len(acq) == 0 || !okp {
 			c.bad(key, a.g.Pos(), "body started without acquiring backgroundSem: "+c.pathStr(a.f, path))
 			continue
@@ -343,30 +356,7 @@ func runC13(c *Ctx) {
 	}
 
 	c.clause("C13.e", "T2", "every DoPrioritizedTask is followed by DonePrioritizedTask on all exits", 5)
-	for _, s := range c.callSitesOf(idIs(pkg+".(*BackgroundTaskManager).DoPrioritizedTask"), live) {
-		f := s.caller
-		key := c.fnKey(f) + ":Do/Done"
-		dones := callsIn(f, idIs(pkg+".(*BackgroundTaskManager).DonePrioritizedTask"))
-		if len(dones) == 0 {
-			c.bad(key, s.instr.Pos(), "DoPrioritizedTask without DonePrioritizedTask: background tasks are blocked forever")
-			continue
-		}
-		good := true
-		var path []int
-		var got ssa.Instruction
-		got, path = reach(f, s.instr, isReturn, newCuts().addCalls(dones))
-		if got != nil {
-			good = false
-		}
-		// same manager
-		same := false
-		for _, d := range dones {
-			if addrKey(d.Common().Args[0]) == addrKey(s.instr.(ssa.CallInstruction).Common().Args[0]) {
-				same = true
-			}
-		}
-		c.verdict(key, s.instr.Pos(), good && same, "Done (deferred or explicit) on every exit after Do", "an exit after DoPrioritizedTask skips DonePrioritizedTask: "+c.pathStr(f, path))
-	}
+	c.doDonePairing()
 
 	c.clause("C13.f", "T1+T4", "the counter is decremented only after the silence-period sleep and followed by Broadcast under the cond lock; waiters test the counter under that lock before Wait; the counter has no other writer", 3)
 	for _, f := range c.pkgFuncs(pkg) {
@@ -524,4 +514,26 @@ func (c *Ctx) mustFnClause(pkg, name string) *ssa.Function {
 		c.unk("anchor:"+pkg+"."+name, token.NoPos, "anchor function does not resolve; the mechanism entry point was renamed or removed")
 	}
 	return f
+}
+
+// doDonePairing: every function that calls DoPrioritizedTask calls DonePrioritizedTask of the same manager on all exits.
+func (c *Ctx) doDonePairing() {
+	const pkg = "task"
+	for _, s := range c.callSitesOf(idIs(pkg+".(*BackgroundTaskManager).DoPrioritizedTask"), c.liveFuncs()) {
+		f := s.caller
+		key := c.fnKey(f) + ":Do/Done"
+		dones := callsIn(f, idIs(pkg+".(*BackgroundTaskManager).DonePrioritizedTask"))
+		if len(dones) == 0 {
+			c.bad(key, s.instr.Pos(), "DoPrioritizedTask without DonePrioritizedTask: background tasks are blocked forever")
+			continue
+		}
+		got, path := reach(f, s.instr, isReturn, newCuts().addCalls(dones))
+		same := false
+		for _, d := range dones {
+			if addrKey(d.Common().Args[0]) == addrKey(s.instr.(ssa.CallInstruction).Common().Args[0]) {
+				same = true
+			}
+		}
+		c.verdict(key, s.instr.Pos(), got == nil && same, "Done (deferred or explicit) on every exit after Do", "an exit after DoPrioritizedTask skips DonePrioritizedTask (e.g. an error return on a corrupted layer): every background task then waits forever: "+c.pathStr(f, path))
+	}
 }
